@@ -125,6 +125,7 @@ pub fn ast_opts(which: Which) -> Opts {
     o.first_line_empty_pct = 5;
     // opening tags of block elements that span several lines (the README's layout)
     o.multiline_tag_pct = 12;
+    o.close_attr_pct = 10;
     if which == Which::C04 {
         o.unwrap_tags_shared = true;
     }
